@@ -16,12 +16,12 @@ EVIDENCE = {
     "assumptions": [
         "quiescence is exact: every blocking primitive of waitress is simulated, so 'all threads blocked and no event pending' is observable",
         "livelock = the I/O thread returns from poll 300 times in a row with the same ready set, no other thread runnable and no progress",
-        "outbuf_high_watermark >= 1 and send_bytes <= outbuf_high_watermark (the degenerate settings are C12's quantifier)",
+        
     ],
 }
 OPTS = {
     "max_conns": 3, "max_reqs": 4, "p_expect_run": 0.25,
-    "send_bytes": [18000, 1000, 9, 1], "watermark": [16777216, 20000, 1000, 50],
+    "send_bytes": [18000, 1000, 9, 1], "watermark": [16777216, 20000, 1000, 50, 1, 0],
     "extra_sizes": ("send_bytes", "watermark", "sendbuf_len"),
     "p_write": 0.3,
 }
@@ -29,8 +29,6 @@ OPTS = {
 
 def gen(W):
     sc = pipeline.gen_scenario(W, OPTS)
-    if sc["send_bytes"] > sc["watermark"]:
-        sc["send_bytes"] = sc["watermark"]
     return sc
 
 
@@ -54,7 +52,7 @@ def run_one(tapes, tier, scenario=None):
         snap["chans"] = chans
         snap["queue"] = len(sim.dispatcher.queue)
 
-    sim.before_teardown = before_teardown
+    k.on_finish = lambda k: before_teardown(sim)
     sim.run()
 
     feat = "+expect" if any(e["expect"] for exp in ctx.expected.values() for e in exp) else ""
